@@ -704,3 +704,90 @@ func checkCapturesCopy(P *Program, prop string) []StructResult {
 	}
 	return out
 }
+
+// ---------------------------------------------------------------- resolve before inspecting (C03, C10, C11)
+//   //@ func F / resolves-before-inspecting
+// Every type test (type switch, type assertion) that F applies to a Term must be applied to a term that went through
+// Env.Resolve (or to a narrowing of one): the shape of a term is only meaningful after the bindings in force have been
+// followed. A test on a raw argument of a compound sees a variable where the caller sees its binding.
+
+func init() { structuralChecks = append(structuralChecks, checkResolveBeforeInspect) }
+
+func isTermIface(t types.Type) bool {
+	n, ok := t.(*types.Named)
+	return ok && n.Obj().Name() == "Term" && n.Obj().Pkg() != nil && n.Obj().Pkg().Path() == enginePath
+}
+
+func resolvedValue(v ssa.Value, seen map[ssa.Value]bool, depth int) bool {
+	if seen[v] {
+		return true
+	}
+	seen[v] = true
+	if depth > 10 {
+		return false
+	}
+	switch x := v.(type) {
+	case *ssa.Call:
+		if callee := x.Call.StaticCallee(); callee != nil {
+			switch fnKey(callee) {
+			case "engine.(*Env).Resolve", "engine.(*Env).simplify", "engine.(*Env).lookup":
+				return true
+			}
+		}
+		return false
+	case *ssa.Extract:
+		return resolvedValue(x.Tuple, seen, depth+1)
+	case *ssa.TypeAssert:
+		return resolvedValue(x.X, seen, depth+1)
+	case *ssa.ChangeInterface:
+		return resolvedValue(x.X, seen, depth+1)
+	case *ssa.MakeInterface:
+		return true // a value of a concrete term type, boxed: its kind is known
+	case *ssa.Phi:
+		for _, e := range x.Edges {
+			if !resolvedValue(e, seen, depth+1) {
+				return false
+			}
+		}
+		return true
+	case *ssa.Const:
+		return true
+	}
+	return false
+}
+
+func checkResolveBeforeInspect(P *Program, prop string) []StructResult {
+	var out []StructResult
+	for _, key := range P.FuncOrd {
+		d := P.Funcs[key]
+		if !hasProp(d.Props(), prop) || !d.Has("resolves-before-inspecting") {
+			continue
+		}
+		fn := P.fnByKey[key]
+		res := StructResult{Name: key + ":resolves-before-inspecting", OK: true}
+		if fn == nil {
+			res.OK, res.Detail = false, "no such function"
+			out = append(out, res)
+			continue
+		}
+		n := 0
+		for _, b := range fn.Blocks {
+			for _, in := range b.Instrs {
+				ta, ok := in.(*ssa.TypeAssert)
+				if !ok || !isTermIface(ta.X.Type()) {
+					continue
+				}
+				n++
+				if !resolvedValue(ta.X, map[ssa.Value]bool{}, 0) {
+					res.OK = false
+					res.Detail += fmt.Sprintf("type test on a term that did not go through Env.Resolve (%s); ", posOf(fn, ta.Pos()))
+				}
+			}
+		}
+		if res.OK {
+			res.Detail = fmt.Sprintf("%d type test(s) on terms, all on resolved terms", n)
+		}
+		out = append(out, res)
+	}
+	return out
+}
